@@ -5,6 +5,8 @@
 //!   6-element pool spanning two page edges of `IntSet<u16>`, from both start modes (whole space in thorough, seeded stride in quick).
 //! * `hist-random`: long random histories (`vec(step, 0..200)`, interpreted; the history shrinks as one value) over eight
 //!   element domains incl. a harness-defined discontinuous one, two evolving sets, full query surface after every step.
+//! * `hist-converge`: short detours on two sets, then one is given the other's members by surgery (not by copying), optionally both
+//!   inverted: ==, cmp, Hash between equal sets that carry different left-over pages.
 //! * `eqord`: pairs of sets built by different routes (inclusive / exclusive storage) : Eq, Ord, Hash vs model.
 //! * `rangeset`: RangeSet<u32|u16|Fixed> histories: canonical form, membership, intersection.
 //! * `codec-roundtrip`: sets x {2,4,8,32,auto}: decode(encode(S)) = S, empty remainder, bias/max, spec reference agrees.
@@ -350,6 +352,10 @@ enum Op {
     /// replace the *other* set by a set with the same members as this one, rebuilt with the opposite storage mode
     /// (domains of <= 65536 values; a plain clone otherwise)
     Mirror,
+    /// give this set the members of the other one *without copying it*: remove what is surplus and add what is missing,
+    /// by the method selected (0 range ops, 1 single inserts/removes, 2 remove_all/extend, 3 intersect-then-union with
+    /// the other set, 4 subtract/union with helper sets). Both sets keep the pages their own histories left behind.
+    Converge(u8),
 }
 #[derive(Clone, Debug, Serialize, Deserialize)]
 struct Step {
@@ -744,6 +750,58 @@ fn run_hist<D: Dom>(c: &HistCase, st: &Stats) -> CaseResult {
                     *sx = sy.clone();
                     m[x] = m[y].clone();
                 }
+                Op::Converge(method) => {
+                    let surplus = minus(&m[x], &m[y]);
+                    let missing = minus(&m[y], &m[x]);
+                    let widest = surplus.iter().chain(missing.iter()).map(|r| r.1 - r.0).max().unwrap_or(0);
+                    let changes = rs_len(&surplus) + rs_len(&missing);
+                    // wide differences (e.g. sets of different modes) only through set algebra: no million-page inserts
+                    let method = if widest > 100_000 { 3 } else if changes > 64 && matches!(*method % 5, 1 | 2) { 0 } else { *method % 5 };
+                    match method {
+                        0 => {
+                            for r in &surplus {
+                                sx.remove_range(D::val(r.0)..=D::val(r.1));
+                            }
+                            for r in &missing {
+                                sx.insert_range(D::val(r.0)..=D::val(r.1));
+                            }
+                        }
+                        1 => {
+                            for v in members_fwd(&surplus, 65) {
+                                sx.remove(D::val(v));
+                            }
+                            for v in members_fwd(&missing, 65) {
+                                sx.insert(D::val(v));
+                            }
+                        }
+                        2 => {
+                            sx.remove_all(members_fwd(&surplus, 65).into_iter().map(D::val));
+                            sx.extend(members_fwd(&missing, 65).into_iter().map(D::val));
+                        }
+                        3 => {
+                            sx.intersect(sy);
+                            sx.union(sy);
+                        }
+                        _ => {
+                            let mut h1 = IntSet::<D::T>::empty();
+                            for r in &surplus {
+                                h1.insert_range(D::val(r.0)..=D::val(r.1));
+                            }
+                            let mut h2 = IntSet::<D::T>::empty();
+                            for r in &missing {
+                                h2.insert_range(D::val(r.0)..=D::val(r.1));
+                            }
+                            sx.subtract(&h1);
+                            sx.union(&h2);
+                        }
+                    }
+                    m[x] = m[y].clone();
+                    probes.extend(surplus.iter().chain(missing.iter()).take(3).map(|r| r.0));
+                    st.class("pair:converged(equal members, independent histories)");
+                    if i > 0 {
+                        nt = true;
+                    }
+                }
                 Op::Mirror => {
                     *sy = if n <= 65_536 { build::<D>(&m[x], !inv_x) } else { sx.clone() };
                     m[y] = m[x].clone();
@@ -849,6 +907,7 @@ fn op_strategy(dk: Dk) -> BoxedStrategy<Op> {
         2 => Just(Op::Fill),
         5 => Just(Op::Assign),
         8 => Just(Op::Mirror),
+        10 => (0u8..5).prop_map(Op::Converge),
     ]
     .boxed()
 }
@@ -869,6 +928,39 @@ fn hist_strategy() -> impl Strategy<Value = HistCase> {
         1 => hist_for(Dk::NameId, 120),
         3 => hist_for(Dk::Ev, 80),
     ]
+}
+
+/// Short detours on both sets (inserts and removals in pages of their own, range removals, clears of ranges, intersections),
+/// then one set is given the other's members by surgery (never by copying), optionally followed by inverting both:
+/// equal member sets reached by different histories, each with its own left-over pages.
+fn converge_for(dk: Dk) -> BoxedStrategy<HistCase> {
+    let detour = prop_oneof![
+        30 => elem(dk).prop_map(Op::Insert),
+        30 => elem(dk).prop_map(Op::Remove),
+        10 => range_of(dk).prop_map(|(a, b)| Op::InsertRange(a, b)),
+        15 => range_of(dk).prop_map(|(a, b)| Op::RemoveRange(a, b)),
+        8 => proptest::collection::vec(elem(dk), 0..6).prop_map(Op::RemoveAll),
+        5 => proptest::collection::vec(elem(dk), 0..6).prop_map(Op::ExtendUnsorted),
+        4 => Just(Op::Intersect),
+        3 => Just(Op::Subtract),
+        2 => Just(Op::Union),
+        2 => Just(Op::Invert),
+    ];
+    let step = (any::<bool>(), detour).prop_map(|(b, op)| Step { b, op });
+    let segment = (proptest::collection::vec(step, 0..7), any::<bool>(), 0u8..5, 0u32..4).prop_map(|(mut steps, side, method, tail)| {
+        steps.push(Step { b: side, op: Op::Converge(method) });
+        if tail == 0 {
+            steps.push(Step { b: false, op: Op::Invert });
+            steps.push(Step { b: true, op: Op::Invert });
+        }
+        steps
+    });
+    (0u32..6, proptest::collection::vec(elem(dk), 0..4), 0u32..6, proptest::collection::vec(segment, 1..4))
+        .prop_map(move |(a_all, b_init, b_inv, segs)| HistCase { dom: dk, a_all: a_all == 0, b_init, b_inv: b_inv == 0, steps: segs.into_iter().flatten().collect() })
+        .boxed()
+}
+fn converge_strategy() -> impl Strategy<Value = HistCase> {
+    prop_oneof![5 => converge_for(Dk::U32), 4 => converge_for(Dk::U16), 1 => converge_for(Dk::U8), 1 => converge_for(Dk::Gid16), 1 => converge_for(Dk::Gid), 1 => converge_for(Dk::Tag), 1 => converge_for(Dk::NameId), 2 => converge_for(Dk::Ev)]
 }
 
 // ---- exhaustive bounded histories -----------------------------------------------------------
@@ -1706,10 +1798,10 @@ fn main() {
     let ctx = Ctx::from_args("C14");
     ctx.set_rule(
         "IntSet histories: steps (insert/remove/insert_range/remove_range/extend/extend_unsorted/remove_all/from_iter/union/intersect/subtract/invert/clear/all/clone/\
-         rebuild-in-opposite-mode) on two evolving sets over u32,u16,u8,GlyphId16,GlyphId,Tag,NameId and a harness-defined discontinuous domain (even numbers in two parts); \
+         rebuild-in-opposite-mode/converge-to-the-other-set's-members-without-copying) on two evolving sets over u32,u16,u8,GlyphId16,GlyphId,Tag,NameId and a harness-defined discontinuous domain (even numbers in two parts); \
          elements from a page-edge/domain-edge pool +-3 and random; after every step the whole query surface of the changed set and the pair relations are compared with a \
          range-list model. Non-trivial history: contains an invert/all() or a binary operation on sets of different storage modes (every step is followed by queries); distinct by \
-         hash of the history. eqord: non-trivial = the two sets are stored in different modes. RangeSet: non-trivial = an insert merged with an existing range. Codec: non-trivial = \
+         hash of the history (hist-converge: a set was given the other's members by surgery after both had histories of their own). eqord: non-trivial = the two sets are stored in different modes. RangeSet: non-trivial = an insert merged with an existing range. Codec: non-trivial = \
          tree height >= 2 or a filled (all-zero) node; distinct by hash of the set / of (bytes, bias, max).",
     );
     ctx.assume("the model is a 60-line sorted range list (boolean combination by sweeping over range end points) written for this check");
@@ -1738,6 +1830,9 @@ fn main() {
 
     if on("hist-random") {
     ctx.prop_stage("hist-random", Isolation::Threads, ctx.n(8_000, 60_000), hist_strategy, test_hist);
+    }
+    if on("hist-converge") {
+    ctx.prop_stage("hist-converge", Isolation::Threads, ctx.n(60_000, 600_000), converge_strategy, test_hist);
     }
     if on("eqord") {
     ctx.prop_stage("eqord", Isolation::Threads, ctx.n(100_000, 1_000_000), eq_strategy, test_eq);
